@@ -28,6 +28,9 @@ type Env struct {
 	results []Val
 	depth   int
 	lheaps  map[string]string // heap view at the enclosing loop head (step assertions)
+	cheaps  map[string]string // heap view right before the call a ghost assert follows
+	cepoch  int
+	cnow    string
 	lepoch  int
 	lnow    string
 	llocals map[string]Val
@@ -335,6 +338,14 @@ func (x *Exec) eval(sx *SX, env *Env) Val {
 			x.specFail("no local %s at the loop head", args[0].Atom)
 		}
 		return v
+	case "atcall":
+		// (atcall e): e in the state right before the call this ghost assert follows
+		if env.cheaps == nil {
+			x.specFail("atcall outside a ghost assert")
+		}
+		n := *env
+		n.heaps, n.epoch, n.now = env.cheaps, env.cepoch, env.cnow
+		return x.eval(args[0], &n)
 	case "atloop":
 		if env.lheaps == nil {
 			x.specFail("atloop outside a loop step assertion")
@@ -435,6 +446,9 @@ func (x *Exec) eval(sx *SX, env *Env) Val {
 		return Val{S: fmt.Sprintf("(select (select %s %s) %s)", h, m.S, k.S), T: mt.Elem()}
 	case "deref":
 		v := ev(0)
+		if v.T == nil && v.Loc == nil {
+			x.specFail("deref of untyped value %s", args[0].String())
+		}
 		l := x.locOf(v)
 		return Val{S: x.load(env, l), T: l.typeAt()}
 	case "is":
@@ -498,6 +512,10 @@ func (x *Exec) eval(sx *SX, env *Env) Val {
 	case "fresh":
 		v := ev(0)
 		return Val{S: fmt.Sprintf("(>= (born %s) %s)", x.refOf(v), env.onow), T: types.Typ[types.Bool]}
+	case "arrof":
+		// (arrof s): the backing array (an object reference; 0 for the nil slice) of slice s
+		v := ev(0)
+		return Val{S: x.refOf(v), T: types.Typ[types.Int]}
 	case "old-now":
 		return Val{S: env.onow, T: types.Typ[types.Int]}
 	case "rowat":
@@ -674,6 +692,24 @@ func (x *Exec) eval(sx *SX, env *Env) Val {
 			}
 		}
 		return v
+	case "before":
+		// (before "A" "B"): on this path some call matching A happens, and the first one precedes the first call matching B
+		if env.st == nil {
+			x.specFail("before outside a path")
+		}
+		a, _ := strconv.Unquote(args[0].Atom)
+		b, _ := strconv.Unquote(args[1].Atom)
+		ia, ib := -1, -1
+		for i, k := range env.st.callLog {
+			if ia < 0 && strings.Contains(k, a) {
+				ia = i
+			}
+			if ib < 0 && strings.Contains(k, b) {
+				ib = i
+			}
+		}
+		ok := ia >= 0 && ib >= 0 && ia < ib
+		return Val{S: fmt.Sprint(ok), T: types.Typ[types.Bool]}
 	case "calls":
 		// (calls "key") -> number of calls of a tracked function along this path
 		if env.st == nil {
@@ -682,6 +718,9 @@ func (x *Exec) eval(sx *SX, env *Env) Val {
 		k, _ := strconv.Unquote(args[0].Atom)
 		n := 0
 		for ck, c := range env.st.calls {
+			if (strings.HasPrefix(ck, "effect:") || strings.HasPrefix(ck, "invoke:")) != (strings.HasPrefix(k, "effect:") || strings.HasPrefix(k, "invoke:")) {
+				continue // effect/invoke counters are only matched by patterns that ask for them
+			}
 			if strings.Contains(ck, k) {
 				n += c
 			}
@@ -695,7 +734,7 @@ func (x *Exec) eval(sx *SX, env *Env) Val {
 		if env.depth > 40 {
 			x.specFail("macro recursion too deep in %s", head)
 		}
-		ne := &Env{vars: map[string]Val{}, st: env.st, heaps: env.heaps, epoch: env.epoch, now: env.now, oheaps: env.oheaps, oepoch: env.oepoch, onow: env.onow, pkg: m.Pkg, fr: nil, results: nil, depth: env.depth + 1, lheaps: env.lheaps, lepoch: env.lepoch, lnow: env.lnow, llocals: env.llocals}
+		ne := &Env{vars: map[string]Val{}, st: env.st, heaps: env.heaps, epoch: env.epoch, now: env.now, oheaps: env.oheaps, oepoch: env.oepoch, onow: env.onow, pkg: m.Pkg, fr: nil, results: nil, depth: env.depth + 1, lheaps: env.lheaps, lepoch: env.lepoch, lnow: env.lnow, llocals: env.llocals, cheaps: env.cheaps, cepoch: env.cepoch, cnow: env.cnow}
 		if m.Pkg == "" {
 			ne.pkg = env.pkg
 			ne.at = env.at
